@@ -486,6 +486,13 @@ func readDnsMsgFromBufio(reader *bufio.Reader, timeout time.Duration, conn net.C
 		return nil, 0, err
 	}
 
+	// A response is not DNS client traffic. Reject it before consuming anything: on the first
+	// read the connection falls through to the normal relay, which must still deliver these
+	// bytes; on later reads the error ends the DNS session exactly as before.
+	if msg.Response {
+		return nil, 0, fmt.Errorf("DNS message is a response, not a query")
+	}
+
 	// Consume the data by discarding it
 	_, err = reader.Discard(int(2 + length))
 	if err != nil {
@@ -643,7 +650,9 @@ func (c *ControlPlane) handleTCPDnsFastPath(ctx context.Context, lConn net.Conn,
 		// Handle the query
 		dnsController := c.ActiveDnsController()
 		if dnsController == nil {
-			return false, fmt.Errorf("dns controller is not available")
+			// The query has already been consumed from the stream, so the connection
+			// can no longer fall through to the relay: report it as handled.
+			return true, fmt.Errorf("dns controller is not available")
 		}
 		err := dnsController.HandleWithResponseWriter_(c.dnsRequestContext(ctx, dnsController), msg, req, writer)
 		if err != nil {
